@@ -472,7 +472,7 @@ fn writer_race(kind: u8, when: usize) {
     let n: u32 = kani::any();
     kani::assume(n >= 1);
     let (mut s, mut e) = mk_stream(0, 2, 2, 0, false);
-    *SCHED_TARGET.lock().unwrap() = Some(SchedTarget { data: &e.data as *const _, kind, n, task: core::ptr::null(), task_fn: None });
+    *SCHED_TARGET.lock().unwrap() = Some(SchedTarget { data: &e.data as *const _, kind, n, task: core::ptr::null(), task_fn: None, stream: core::ptr::null_mut(), writer_fn: None });
     SCHED_FIRE_AT.store(usize::MAX, AO::Relaxed);
     let wakes0 = wakes();
     if when == 0 {
@@ -516,6 +516,114 @@ fn writer_race(kind: u8, when: usize) {
     core::mem::forget(e);
 }
 
+// ---------------------------------------------------------------------------------------
+// C12 at the granularity of individual atomic operations (instrumented atomics, common.rs)
+// ---------------------------------------------------------------------------------------
+fn writer_poll_action(s: *mut MuxStream) -> u8 {
+    // SAFETY: the harness keeps the stream alive and does not touch it while the action runs
+    let s = unsafe { &mut *s };
+    match cx_poll(|cx| s.poll_obtain_write_permission(cx)) {
+        Poll::Pending => 0,
+        Poll::Ready(Some(())) => 1,
+        Poll::Ready(None) => 2,
+    }
+}
+
+/// The other party's whole operation (acknowledge(n) / disallow_write()) runs immediately before
+/// the `k`-th ATOMIC operation of the writer's poll (finer than the log sites of `writer_race`).
+fn writer_race_atomic(kind: u8, k: usize) {
+    let n: u32 = kani::any();
+    kani::assume(n >= 1);
+    let c0: u32 = kani::any();
+    kani::assume(c0 <= 1);
+    // conforming peer: it cannot return more credit than the 32-bit counter holds
+    kani::assume(n <= u32::MAX - c0);
+    let (mut s, mut e) = mk_stream(c0, 2, 2, 0, false);
+    *SCHED_TARGET.lock().unwrap() = Some(SchedTarget { data: &e.data as *const _, kind, n, task: core::ptr::null(), task_fn: None, stream: core::ptr::null_mut(), writer_fn: None });
+    let wakes0 = wakes();
+    atom_arm(k);
+    let r = cx_poll(|cx| s.poll_obtain_write_permission(cx));
+    atom_disarm();
+    let fired = ATOM_FIRED.load(AO::Relaxed) == 1;
+    if !fired {
+        sched_action();
+    }
+    kani::cover!(fired, "?the other party ran between two atomic operations of the writer's poll");
+    let credit = s.psh_send_remaining.raw().load(AO::Relaxed);
+    match r {
+        Poll::Ready(Some(())) => {
+            vassert!(kind == 0 || c0 >= 1, "P:C12 the writer obtained credit although none was available");
+            let granted = if kind == 0 { n } else { 0 };
+            vassert!(credit == c0.wrapping_add(granted).wrapping_sub(1), "P:C12 credit after the race is not grants minus frames sent");
+        }
+        Poll::Ready(None) => {
+            vassert!(kind == 1, "P:C12 the writer saw a closed stream although it was never closed");
+        }
+        Poll::Pending => {
+            vassert!(c0 == 0, "P:C12 the writer sleeps although credit was available");
+            if kind == 0 {
+                vassert!(credit == n, "P:C12 credit after the race is not grants minus frames sent");
+            }
+            vassert!(wakes() > wakes0, "P:C12 lost wake-up - the writer sleeps although credit arrived or the stream was closed");
+        }
+    }
+    kani::cover!(true, "atomic race evaluated");
+    *SCHED_TARGET.lock().unwrap() = None;
+    core::mem::forget(s);
+    core::mem::forget(e);
+}
+
+/// The WRITER's whole poll runs immediately before the `k`-th atomic operation of the connection
+/// task's acknowledge(n) / disallow_write() (a writer thread that gets in between two atomic
+/// operations of the task: a load / store pair instead of one read-modify-write loses the
+/// writer's decrement - seeds C12c, C03c).
+fn task_race_atomic(kind: u8, k: usize) {
+    let n: u32 = kani::any();
+    kani::assume(n >= 1 && n <= 4);
+    let c0: u32 = kani::any();
+    kani::assume(c0 <= 2);
+    let (mut s, mut e) = mk_stream(c0, 2, 2, 0, false);
+    *SCHED_TARGET.lock().unwrap() = Some(SchedTarget { data: core::ptr::null(), kind: 3, n: 0, task: core::ptr::null(), task_fn: None, stream: &mut s as *mut MuxStream, writer_fn: Some(writer_poll_action) });
+    WRITER_RESULT.store(9, AO::Relaxed);
+    let wakes0 = wakes();
+    atom_arm(k);
+    if kind == 0 {
+        e.data.acknowledge(n);
+    } else {
+        e.data.disallow_write();
+    }
+    atom_disarm();
+    let points = ATOM_POINTS.load(AO::Relaxed);
+    let fired = ATOM_FIRED.load(AO::Relaxed) == 1;
+    if !fired {
+        // the task's operation has fewer atomic operations than k: the writer runs afterwards
+        sched_action();
+    }
+    kani::cover!(fired, "?the writer ran between two atomic operations of the task's operation");
+    vassert!(points >= 1, "BOUND: the task's operation passed no atomic scheduling point (instrumentation not in place)");
+    let wr = WRITER_RESULT.load(AO::Relaxed);
+    let credit = s.psh_send_remaining.raw().load(AO::Relaxed);
+    let sent = if wr == 1 { 1 } else { 0 };
+    if kind == 0 {
+        vassert!(wr != 2, "P:C12 the writer saw a closed stream although it was never closed");
+        vassert!(credit == c0 + n - sent, "P:C12 credit after the race is not grants minus frames sent (a frame went out without consuming a unit of credit, or credit was lost)");
+        if wr == 0 {
+            vassert!(c0 == 0, "P:C12 the writer sleeps although credit was available");
+            vassert!(wakes() > wakes0, "P:C12 lost wake-up - the writer sleeps although credit arrived");
+        }
+    } else {
+        vassert!(credit == c0 - sent, "P:C12 credit after the race is not grants minus frames sent");
+        if wr == 0 {
+            vassert!(c0 == 0, "P:C12 the writer sleeps although credit was available");
+            vassert!(wakes() > wakes0, "P:C12 lost wake-up - the writer sleeps although the stream was closed");
+        }
+    }
+    kani::cover!(true, "atomic race evaluated");
+    *SCHED_TARGET.lock().unwrap() = None;
+    core::mem::forget(s);
+    core::mem::forget(e);
+}
+
 macro_rules! h {
     ($name:ident, $unwind:literal, $body:expr) => {
         #[kani::proof]
@@ -551,6 +659,22 @@ h!(c03_credit_return, 8, credit_return());
 h!(c05_shutdown_once, 8, shutdown_once());
 // `when`: 0 = before the writer's poll; k in 1..=5 = at the k-th place where the poll logs
 // (if the path has that many); 6 = after the poll returned.
+h!(c12_atomic_ack_in_writer_k0, 4, writer_race_atomic(0, 0));
+h!(c12_atomic_ack_in_writer_k1, 4, writer_race_atomic(0, 1));
+h!(c12_atomic_ack_in_writer_k2, 4, writer_race_atomic(0, 2));
+h!(c12_atomic_ack_in_writer_k3, 4, writer_race_atomic(0, 3));
+h!(c12_atomic_ack_in_writer_k4, 4, writer_race_atomic(0, 4));
+h!(c12_atomic_close_in_writer_k0, 4, writer_race_atomic(1, 0));
+h!(c12_atomic_close_in_writer_k1, 4, writer_race_atomic(1, 1));
+h!(c12_atomic_close_in_writer_k2, 4, writer_race_atomic(1, 2));
+h!(c12_atomic_close_in_writer_k3, 4, writer_race_atomic(1, 3));
+h!(c12_atomic_close_in_writer_k4, 4, writer_race_atomic(1, 4));
+h!(c12_atomic_writer_in_ack_k0, 4, task_race_atomic(0, 0));
+h!(c12_atomic_writer_in_ack_k1, 4, task_race_atomic(0, 1));
+h!(c12_atomic_writer_in_ack_k2, 4, task_race_atomic(0, 2));
+h!(c12_atomic_writer_in_close_k0, 4, task_race_atomic(1, 0));
+h!(c12_atomic_writer_in_close_k1, 4, task_race_atomic(1, 1));
+h!(c12_atomic_writer_in_close_k2, 4, task_race_atomic(1, 2));
 h!(c12_race_ack_w0, 4, writer_race(0, 0));
 h!(c12_race_ack_w1, 4, writer_race(0, 1));
 h!(c12_race_ack_w2, 4, writer_race(0, 2));
